@@ -1353,14 +1353,23 @@ Proof. exists (NewChange (WStr [233%N])), EUnicodeEncode. split; [exact ex_reach
 
 Definition ex_preamble : call := WritePreamble (WStr (ascii_text (B "hi"))) WNone None WNone WNone.
 
+Lemma ex_lookup :
+  match lookup_codec (B "utf-8") with
+  | LOk cn c => match c_enc c (ascii_text (B "hi")) with Some _ => true | None => false end
+  | _ => false
+  end = true.
+Proof. vm_compute. reflexivity. Qed.
+
 Example ex_args_ok : args_ok s_ex ex_preamble /\ In (target s_ex ex_preamble) (table (B "diffx")) /\
                      w_prev s_ex = Some (B "diffx").
 Proof.
   split; [|split; [apply in_ids_In; vm_compute; reflexivity | vm_compute; reflexivity]].
   exists (ascii_text (B "hi")). split; [reflexivity|]. split; [discriminate|]. split.
-  - split; [left; reflexivity|]. exists (B "utf-8"), utf8. split.
-    + exists (ascii_text (B "utf-8")), (B "utf-8"). split; [reflexivity|]. split; vm_compute; reflexivity.
-    + eexists. vm_compute. reflexivity.
+  - split; [left; reflexivity|].
+    pose proof ex_lookup as L. destruct (lookup_codec (B "utf-8")) as [cn c| |] eqn:E; try discriminate.
+    exists cn, c. split.
+    + exists (ascii_text (B "utf-8")), (B "utf-8"). split; [reflexivity|]. split; [vm_compute; reflexivity | exact E].
+    + destruct (c_enc c (ascii_text (B "hi"))) as [b|]; [eauto | discriminate].
   - split; [left; reflexivity|]. split; left; reflexivity.
 Qed.
 
